@@ -150,6 +150,40 @@ pub fn c13(log: &mut Log, seed: u64, tier: &str) {
                 log.ev(json!({"ev": "Mem", "what": "build", "scenario": format!("build-prefixkeys-{}-{}", if set { "set" } else { "map" }, gname),
                               "n": n, "k": 1, "cells": cells, "maxFan": 4, "maxKeyLen": KEYLEN + 1, "live": jn(live), "peak": jn(peak), "allocs": jn(allocs)}));
             }
+            // a third family: very many *distinct* wide nodes (fan-out 33, above the index
+            // threshold), one per group of 33 keys
+            for &n in &ns {
+                if n > 1_000_000 {
+                    continue;
+                }
+                fst::raw::verif::set_geometry(geo);
+                let snap = alloc::begin();
+                let mut b = Builder::new(io::sink()).unwrap();
+                let cells = { let (r, c) = fst::raw::verif::last_geometry(); let _ = cells; r * c };
+                let mut key = [0u8; 7];
+                let mut x = seed.wrapping_mul(0x9E37_79B9_7F4A_7C15) | 1;
+                for g in 0..(n / 33) {
+                    let hex = format!("{:06x}", g);
+                    key[..6].copy_from_slice(hex.as_bytes());
+                    for j in 0..33u8 {
+                        key[6] = b'A' + j;
+                        x ^= x << 13;
+                        x ^= x >> 7;
+                        x ^= x << 17;
+                        if set {
+                            // (sets share their wide nodes; the groups still differ by their prefix)
+                            b.add(&key).unwrap();
+                        } else {
+                            b.insert(&key, x >> 24).unwrap();
+                        }
+                    }
+                }
+                let (live, peak, allocs) = alloc::read(&snap);
+                b.finish().unwrap();
+                fst::raw::verif::set_geometry(None);
+                log.ev(json!({"ev": "Mem", "what": "build", "scenario": format!("build-wide33-{}-{}", if set { "set" } else { "map" }, gname),
+                              "n": n, "k": 1, "cells": cells, "maxFan": 33, "maxKeyLen": 7, "live": jn(live), "peak": jn(peak), "allocs": jn(allocs)}));
+            }
             for &n in &ns {
                 // 4^12 keys exist: keep the counter below that
                 let maxstep = std::cmp::max(1, (16_000_000 / n) as u64);
@@ -192,8 +226,60 @@ fn build_map(n: usize, seed: u64, maxstep: u64) -> Vec<u8> {
     b.into_inner().unwrap()
 }
 
+/// Point lookups through nodes of every fan-out (linear scan, index table, every node form)
+/// and through the corpora allocate nothing.
+fn c14_lookup_shapes(log: &mut Log) {
+    let mut shapes: Vec<(String, Vec<Vec<u8>>)> = vec![];
+    for f in 1..=256usize {
+        // a root of fan-out f over an inner node of fan-out f
+        let mut keys = vec![];
+        for a in 0..f {
+            let fan2 = if a == 0 { f } else { 1 };
+            for b in 0..fan2 {
+                keys.push(vec![a as u8, b as u8, b't']);
+            }
+        }
+        keys.sort();
+        shapes.push((format!("fanout-{}", f), keys));
+    }
+    for name in &["words-10000", "wiki-urls-10000"] {
+        let keys = read_lines(name);
+        if !keys.is_empty() {
+            shapes.push((name.to_string(), keys));
+        }
+    }
+    for (name, keys) in shapes {
+        let mut b = Builder::memory();
+        for (i, k) in keys.iter().enumerate() {
+            b.insert(k, (i as u64) * 3).unwrap();
+        }
+        let bytes = b.into_inner().unwrap();
+        let maxlen = keys.iter().map(|k| k.len()).max().unwrap_or(0);
+        let mut probe = vec![0u8; maxlen + 1];
+        let snap = alloc::begin();
+        let f = Fst::new(&bytes[..]).unwrap();
+        let m = fst::Map::new(&bytes[..]).unwrap();
+        let mut hits = 0usize;
+        for k in &keys {
+            hits += f.get(k).is_some() as usize + f.contains_key(k) as usize + m.contains_key(k) as usize;
+            // an absent extension and an absent sibling
+            probe[..k.len()].copy_from_slice(k);
+            probe[k.len()] = b'z';
+            hits += f.contains_key(&probe[..k.len() + 1]) as usize;
+            if let Some(last) = probe[..k.len()].last_mut() {
+                *last = last.wrapping_add(1);
+            }
+            hits += m.get(&probe[..k.len()]).is_some() as usize;
+        }
+        let (_, peak, allocs) = alloc::read(&snap);
+        log.ev(json!({"ev": "Mem", "what": "noalloc", "scenario": format!("open-get-{}", name), "n": keys.len(), "k": 1, "maxKeyLen": maxlen,
+                      "peak": jn(peak), "allocs": jn(allocs), "hits": hits}));
+    }
+}
+
 pub fn c14(log: &mut Log, seed: u64, tier: &str) {
     let thorough = tier == "thorough";
+    c14_lookup_shapes(log);
     let ns: Vec<usize> = if thorough { vec![10_000, 100_000, 1_000_000] } else { vec![10_000, 100_000] };
     for &n in &ns {
         let bytes = build_map(n, seed, std::cmp::max(1, (16_000_000 / n) as u64));
